@@ -1344,13 +1344,11 @@ class Process(StateMachine, persistence.Savable, metaclass=ProcessStateMachineMe
                 next_state = await self._run_task(self._state.execute)
             except process_states.Interruption as exception:
                 # If the interruption was caused by a call to a Process method then there should
-                # be an interrupt action ready to be executed, so just check if the cookie matches
-                # that of the exception i.e. if it is the _same_ interruption.  If not cancel and
-                # build the interrupt action below
-                if self._interrupt_action is not None:
-                    if self._interrupt_action.cookie is not exception:
-                        self._set_interrupt_action_from_exception(exception)
-                else:
+                # be an interrupt action ready to be executed: either the one belonging to this
+                # interruption or that of a more recent request which superseded it (e.g. a kill
+                # after a pause), which must not be overridden.  If there is none, build the
+                # interrupt action from the exception
+                if self._interrupt_action is None:
                     self._set_interrupt_action_from_exception(exception)
 
             except KeyboardInterrupt:
